@@ -7,6 +7,7 @@ import (
 	"math/big"
 	"os/exec"
 	"strings"
+	"sync"
 	"time"
 )
 
@@ -21,17 +22,32 @@ type Term struct {
 	NL    bool  // contains a product/quotient of two non-constant terms
 }
 
+var varMu sync.RWMutex
 var varIDs = map[string]int{}
 var varNames []string
 
 func varID(name string) int {
+	varMu.RLock()
+	id, ok := varIDs[name]
+	varMu.RUnlock()
+	if ok {
+		return id
+	}
+	varMu.Lock()
+	defer varMu.Unlock()
 	if id, ok := varIDs[name]; ok {
 		return id
 	}
-	id := len(varNames)
+	id = len(varNames)
 	varIDs[name] = id
 	varNames = append(varNames, name)
 	return id
+}
+
+func varName(id int) string {
+	varMu.RLock()
+	defer varMu.RUnlock()
+	return varNames[id]
 }
 
 func anyNL(ts ...Term) bool {
@@ -253,6 +269,8 @@ type Solver struct {
 	in      io.WriteCloser
 	out     *bufio.Reader
 	Queries int
+	Unknown int
+	Errors  []string
 	Time    time.Duration
 	log     io.Writer
 }
@@ -299,13 +317,14 @@ func (s *Solver) Check() string {
 		switch {
 		case l == "sat" || l == "unsat" || l == "unknown":
 			s.Time += time.Since(t0)
-			if d := time.Since(t0); d > 2*time.Second {
-				fmt.Printf("SLOW QUERY #%d %.1fs -> %s\n", s.Queries, d.Seconds(), l)
+			if l == "unknown" {
+				s.Unknown++
 			}
 			return l
 		case strings.HasPrefix(l, "(error"):
-			fmt.Println("SOLVER ERROR:", l)
+			s.Errors = append(s.Errors, l)
 			s.Time += time.Since(t0)
+			s.Unknown++
 			return "unknown"
 		}
 	}
@@ -341,6 +360,31 @@ func (s *Solver) GetValues(names []string) map[string]string {
 		res[n] = v
 	}
 	return res
+}
+
+// GetValueTerm evaluates an arbitrary term under the current model.
+func (s *Solver) GetValueTerm(term string) string {
+	s.Send("(get-value (" + term + "))")
+	var sb strings.Builder
+	depth := 0
+	started := false
+	for !started || depth > 0 {
+		l := s.readLine()
+		for _, c := range l {
+			if c == '(' {
+				depth++
+				started = true
+			} else if c == ')' {
+				depth--
+			}
+		}
+		sb.WriteString(l)
+		sb.WriteString(" ")
+	}
+	v := strings.TrimSpace(sb.String())
+	v = strings.TrimSuffix(strings.TrimPrefix(v, "(("), "))")
+	v = strings.TrimSpace(strings.TrimPrefix(v, term))
+	return v
 }
 
 func (s *Solver) Close() { s.Send("(exit)"); s.cmd.Wait() }
